@@ -59,6 +59,9 @@ pub(crate) enum Op {
     Imul3,
     Div,
     Idiv,
+    /// only the fault condition of DIV / IDIV (no divider circuit in the formula)
+    DivFault,
+    IdivFault,
     Mov,
     Movzx,
     Movsxd,
@@ -101,6 +104,8 @@ pub(crate) struct Out {
     pub any_regs: u32,
     /// no comparison at all (form not modelled)
     pub skip: bool,
+    /// only error-vs-fault is compared (values are the subject of a sibling harness)
+    pub fault_only: bool,
 }
 
 // ---------------------------------------------------------------------------------------
@@ -452,6 +457,7 @@ pub(crate) fn exec(f: &Fields, op: Op, w: u32, sw: u32, cc: u8, pre: &Mach) -> O
         undef: 0,
         any_regs: 0,
         skip: false,
+        fault_only: false,
     };
     let nbytes = (w / 8) as usize;
     match op {
@@ -621,41 +627,42 @@ pub(crate) fn exec(f: &Fields, op: Op, w: u32, sw: u32, cc: u8, pre: &Mach) -> O
             out.def = CF | OF;
             out.undef = SF | ZF | AF | PF;
         }
-        Op::Div | Op::Idiv => {
+        Op::Div | Op::Idiv | Op::DivFault | Op::IdivFault => {
+            let signed = op == Op::Idiv || op == Op::IdivFault;
             let d = rd!(f, pre, 0, w, out);
-            let n: u128 = if w == 8 {
-                (pre.r[RAX_I] & 0xffff) as u128
-            } else {
-                ((((pre.r[RDX_I] as u128) & mask(w)) << w) | ((pre.r[RAX_I] as u128) & mask(w)))
-            };
             out.undef = STATUS;
-            if d == 0 {
+            // the #DE condition is decided without a divider circuit
+            if div_faults(signed, w, d, pre) {
                 out.fault = true;
                 return out;
             }
-            let (q, r) = if op == Op::Div {
-                let q = n / d;
-                if q > mask(w) {
-                    out.fault = true;
-                    return out;
+            if op == Op::DivFault || op == Op::IdivFault {
+                out.fault_only = true;
+                return out;
+            }
+            // the value part uses the same 128-bit primitive any implementation uses (DESIGN 5.3)
+            let (q, r) = if w == 64 {
+                let n = (pre.r[RAX_I] as u128) | ((pre.r[RDX_I] as u128) << 64);
+                if !signed {
+                    (n / d, n % d)
+                } else {
+                    let ns = n as i128;
+                    let ds = d as u64 as i64 as i128;
+                    ((ns.wrapping_div(ds)) as u128 & mask(64), (ns.wrapping_rem(ds)) as u128 & mask(64))
                 }
-                (q, n % d)
             } else {
-                let ns = sext(n, 2 * w);
-                let ds = sext(d, w);
-                let q = match ns.checked_div(ds) {
-                    Some(q) => q,
-                    None => {
-                        out.fault = true;
-                        return out;
-                    }
+                let n: u128 = if w == 8 {
+                    (pre.r[RAX_I] & 0xffff) as u128
+                } else {
+                    (((pre.r[RDX_I] as u128) & mask(w)) << w) | ((pre.r[RAX_I] as u128) & mask(w))
                 };
-                let lim = 1i128 << (w - 1);
-                if q >= lim || q < -lim {
-                    out.fault = true;
-                    return out;
+                if !signed {
+                    (n / d, n % d)
+                } else {
+                    let ns = sext(n, 2 * w);
+                    let ds = sext(d, w);
+                    ((ns.wrapping_div(ds) as u128) & mask(w), (ns.wrapping_rem(ds) as u128) & mask(w))
                 }
-                ((q as u128) & mask(w), (ns.wrapping_rem(ds) as u128) & mask(w))
             };
             if w == 8 {
                 out.m.r[RAX_I] = (pre.r[RAX_I] & !0xffff) | ((r as u64) << 8) | q as u64;
@@ -826,6 +833,33 @@ pub(crate) fn exec(f: &Fields, op: Op, w: u32, sw: u32, cc: u8, pre: &Mach) -> O
     out
 }
 
+/// #DE condition of DIV/IDIV without a divider: divisor zero, or quotient out of range.
+pub(crate) fn div_faults(signed: bool, w: u32, d: u128, pre: &Mach) -> bool {
+    if d == 0 {
+        return true;
+    }
+    let (hi, lo) = if w == 8 {
+        (((pre.r[RAX_I] >> 8) & 0xff) as u128, (pre.r[RAX_I] & 0xff) as u128)
+    } else {
+        ((pre.r[RDX_I] as u128) & mask(w), (pre.r[RAX_I] as u128) & mask(w))
+    };
+    if !signed {
+        // quotient < 2^w  <=>  high half < divisor
+        return hi >= d;
+    }
+    let n = sext((hi << w) | lo, 2 * w);
+    let ds = sext(d, w);
+    let an = n.unsigned_abs();
+    let ad = ds.unsigned_abs();
+    if (n < 0) == (ds < 0) {
+        // quotient >= 0 must be <= 2^(w-1)-1  <=>  |n| < |d| * 2^(w-1)
+        (an >> (w - 1)) >= ad
+    } else {
+        // quotient <= 0 must be >= -2^(w-1)   <=>  |n| < |d| * (2^(w-1) + 1)
+        an >= (ad << (w - 1)) + ad
+    }
+}
+
 /// LEA ignores segment overrides.
 fn ea_noseg(f: &Fields, m: &Mach) -> Option<u64> {
     let mut g = *f;
@@ -849,6 +883,32 @@ pub(crate) const D_RSP: u32 = 1 << 9;
 pub(crate) const D_MEM_ON_FAULT: u32 = 1 << 10;
 
 pub(crate) fn diff(out: &Out, pre: &Mach, is_err: bool, post: &Mach) -> u32 {
+    let bad = diff_inner(out, pre, is_err, post);
+    #[cfg(not(kani))]
+    if bad != 0 && std::env::var("VERIF_REPLAY_VERBOSE").is_ok() {
+        println!("REPLAY-DIFF: mask={:#x} ref_fault={} emulator_err={}", bad, out.fault, is_err);
+        let names = ["RIP", "RAX", "RBX", "RCX", "RDX", "RSI", "RDI", "RSP", "RBP", "R8", "R9", "R10", "R11", "R12", "R13", "R14", "R15"];
+        for i in 0..17 {
+            if post.r[i] != out.m.r[i] || pre.r[i] != post.r[i] {
+                println!("REPLAY-DIFF: {:4} pre={:#018x} emulator={:#018x} cpu_reference={:#018x}", names[i], pre.r[i], post.r[i], out.m.r[i]);
+            }
+        }
+        println!("REPLAY-DIFF: rflags pre={:#x} emulator={:#x} cpu_reference={:#x} defined_mask={:#x} undefined_mask={:#x}", pre.rflags, post.rflags, out.m.rflags, out.def, out.undef);
+        for i in 0..16 {
+            if post.x[i] != out.m.x[i] {
+                println!("REPLAY-DIFF: XMM{} pre={:#x} emulator={:#x} cpu_reference={:#x}", i, pre.x[i], post.x[i], out.m.x[i]);
+            }
+        }
+        if pre.mem_on {
+            println!("REPLAY-DIFF: mem pre      ={:02x?}", pre.mem);
+            println!("REPLAY-DIFF: mem emulator ={:02x?}", post.mem);
+            println!("REPLAY-DIFF: mem cpu_ref  ={:02x?} access={}", out.m.mem, pre.mem_acc);
+        }
+    }
+    bad
+}
+
+fn diff_inner(out: &Out, pre: &Mach, is_err: bool, post: &Mach) -> u32 {
     let mut bad = 0u32;
     if out.skip {
         return 0;
@@ -869,6 +929,9 @@ pub(crate) fn diff(out: &Out, pre: &Mach, is_err: bool, post: &Mach) -> u32 {
     }
     if is_err {
         return D_SPURIOUS_ERR;
+    }
+    if out.fault_only {
+        return 0;
     }
     let mut i = 1;
     while i < 17 {
